@@ -211,6 +211,37 @@ func init() {
 				return []V{VErr(kind)}
 			}
 			return projectDoc(m)
+		case "calcjson":
+			// the whole serialised calculated document: what `gobl build` writes and what a later build,
+			// correction or edit-and-rebuild receives as its input
+			_, out, kind := calcJSON(a[1].S)
+			if kind != "" {
+				return []V{VErr(kind)}
+			}
+			return []V{VS("ok"), V{Kind: 's', S: out}}
+		case "calc2":
+			// Parse, Envelop (first calculation), Envelope.Calculate again on the same in-memory document
+			// (no JSON round trip in between), projected like "calc"
+			obj, err := gobl.Parse(a[1].S)
+			if err != nil {
+				return []V{VErr("parse")}
+			}
+			env, err := gobl.Envelop(obj)
+			if err != nil {
+				return []V{VErr("calc")}
+			}
+			if err := env.Calculate(); err != nil {
+				return []V{VErr("recalc")}
+			}
+			out, err := json.Marshal(env.Document)
+			if err != nil {
+				return []V{VErr("marshal")}
+			}
+			var m jmap
+			if err := json.Unmarshal(out, &m); err != nil {
+				return []V{VErr("remarshal")}
+			}
+			return projectDoc(m)
 		}
 		return []V{VErr("unknown-c01-op")}
 	})
